@@ -333,3 +333,40 @@ func vh_cookie_exact() {
 		vreach("invalid")
 	}
 }
+
+// vhRecHash records what is fed to the cookie hasher.
+type vhRecHash struct{ in []byte }
+
+func (h *vhRecHash) Write(p []byte) (int, error) { h.in = append(h.in, p...); return len(p), nil }
+func (h *vhRecHash) Sum(b []byte) []byte        { return append(b, make([]byte, 20)...) }
+func (h *vhRecHash) Reset()                     { h.in = nil }
+func (h *vhRecHash) Size() int                  { return 20 }
+func (h *vhRecHash) BlockSize() int             { return 64 }
+
+// The SYN cookie is a keyed hash of the WHOLE connection identity: what the real cookieHash
+// feeds to the hasher is local port, remote port, timestamp, the nonce, local address, remote
+// address - each in full (the hash itself is opaque to the solver; its input is not).
+func vh_cookie_input() {
+	c := vhEP(1<<16, 1<<16)
+	_, l := c.vhListener()
+	rec := &vhRecHash{}
+	l.hasher = rec
+	id := stack.TransportEndpointID{LocalPort: vnU16("lport"), RemotePort: vnU16("rport"),
+		LocalAddress: tcpip.Address(vnString("laddr", 4)), RemoteAddress: tcpip.Address(vnString("raddr", 4))}
+	ts := vnU32("ts")
+	ni := vnChoice("nonce", 2)
+	l.cookieHash(id, ts, ni)
+	want := []byte{byte(id.LocalPort >> 8), byte(id.LocalPort), byte(id.RemotePort >> 8), byte(id.RemotePort), byte(ts >> 24), byte(ts >> 16), byte(ts >> 8), byte(ts)}
+	want = append(want, l.nonce[ni][:]...)
+	want = append(want, []byte(id.LocalAddress)...)
+	want = append(want, []byte(id.RemoteAddress)...)
+	vassert(len(rec.in) == len(want), "the hasher is fed ports, timestamp, nonce and both addresses")
+	same := true
+	for i := range want {
+		if i < len(rec.in) && rec.in[i] != want[i] {
+			same = false
+		}
+	}
+	vassert(same, "the cookie covers the whole 4-tuple: local port, remote port, timestamp, nonce, local address, remote address, each in full")
+	vreach("cookie-input")
+}
